@@ -7,6 +7,7 @@ CONSTANTS
   Bodies = {1, 2}
   Protos = {"ok"}
   RoleCfgs <- RelayRoleCfgs
+  AllowCfgs <- RelayAllowCfgs
   TypeCfgs <- RelayTypeCfgs
   NB = 2
   LB = 2
